@@ -119,22 +119,10 @@ Heads(r) == Core!HeadsOf(MemBlocks(r))
 OrderOf(rev) == IF rev = NoRev \/ RSpecial(rev) THEN <<>> ELSE Last(rev).o
 
 -----------------------------------------------------------------------------
-(* merge_arrays (src/utils.rs), transcribed: merge M into N *)
-Pos(s, e) == CHOOSE i \in 1..Len(s) : s[i] = e
-In(s, e) == \E i \in 1..Len(s) : s[i] = e
-RECURSIVE MergeLoop(_, _, _, _, _)
-MergeLoop(m, n, cur, ins, pivot) ==       \* cur: 1-based position in m; ins, pivot: 0-based as in the code
-    IF cur > Len(m) THEN n
-    ELSE LET t == m[cur] IN
-         IF In(n, t) THEN MergeLoop(m, n, cur + 1, Pos(n, t) - 1, pivot)
-         ELSE IF cur - 1 < pivot THEN MergeLoop(m, InsertAt(n, ins + 1, t), cur + 1, ins, cur - 1)
-         ELSE MergeLoop(m, InsertAt(n, ins + 2, t), cur + 1, ins + 1, pivot)
-FirstCommon(m, n) == IF \E i \in 1..Len(m) : In(n, m[i])
-                     THEN CHOOSE i \in 1..Len(m) : In(n, m[i]) /\ \A j \in 1..(i - 1) : ~In(n, m[j])
-                     ELSE 0
-Merge(m, n) == IF n = <<>> THEN m ELSE IF m = <<>> THEN n
-               ELSE LET fc == FirstCommon(m, n) IN
-                    MergeLoop(m, n, 1, IF fc = 0 THEN 0 ELSE Pos(n, m[fc]) - 1, IF fc = 0 THEN Len(m) ELSE fc - 1)
+(* merge_arrays (src/utils.rs): the transcription lives in ArrayMerge.tla *)
+AM == INSTANCE ArrayMerge
+In(s, e) == AM!In(s, e)
+Merge(m, n) == AM!Merge(m, n)
 
 RECURSIVE SortRevs(_)
 SortRevs(S) == IF S = {} THEN <<>> ELSE LET mx == Core!MaxRev(S) IN Append(SortRevs(S \ {mx}), mx)
